@@ -520,6 +520,9 @@ def run(ctx):
     import c14
 
     ctx.include("C01.15", "discharges `NonEmptyVec from a version range that is never empty` (update_declarations): the versions declared for a local are the whole range, or 0..1 when there is none (shared with C14.6)", c14.rule_declarations, only=["local-versions", "locals-all-versions", "declares-every-version", "statement-lists-the-versions"])
+    import c02
+
+    ctx.include("C01.18", "the pragma's version is compared component by component (an ordering computed by arithmetic on the components overflows for large numbers; shared with C02.8)", c02.rule_version_gate)
     import c03
 
     ctx.include("C01.17", "the run ends in the summary line with status 0 or 1: main has no other way out once the inputs are being read (shared with C03.2)", lambda c: c03.rule_exit_status(c, "C03.2"), only=["main/"])
